@@ -116,11 +116,13 @@ func (p *Parser) parseCommonTableExpr() (*ast.CommonTableExpr, error) {
 	defer func() { p.depth-- }()
 
 	if p.depth > MaxRecursionDepth {
-		return nil, goerrors.InvalidCTEError(
+		// the same error code as every other depth guard, so that callers
+		// recognise (and propagate) it by its code
+		return nil, goerrors.NewError(
+			goerrors.ErrCodeRecursionDepthLimit,
 			fmt.Sprintf("maximum recursion depth exceeded (%d) - CTE too deeply nested", MaxRecursionDepth),
-			models.Location{},
-			"",
-		)
+			p.currentLocation(),
+		).WithHint(fmt.Sprintf("Simplify nested expressions or subqueries (current limit: %d levels)", MaxRecursionDepth))
 	}
 
 	// Parse CTE name (supports double-quoted identifiers)
